@@ -94,9 +94,11 @@ Theorem c13_roster_injective_same_profile : forall (H256 U5 : bytes -> bytes) (L
 Proof. exact roster_injective_same_profile. Qed.
 Print Assumptions c13_roster_injective_same_profile.
 
+(* two different rosters satisfy the hypotheses *)
 Example c13_roster_hypotheses_satisfiable :
-  keys_len 32 (roster_keys f16_r2) /\ 0 < 32 /\
-  map (fun m => length (m_srv m)) f16_r2 = map (fun m => length (m_srv m)) f16_r2.
+  0 < 32 /\ keys_len 32 (roster_keys sat_r1) /\ keys_len 32 (roster_keys sat_r2) /\
+  map (fun m => length (m_srv m)) sat_r1 = map (fun m => length (m_srv m)) sat_r2 /\
+  roster_bins sat_r1 <> roster_bins sat_r2.
 Proof. exact roster_hypotheses_satisfiable. Qed.
 Print Assumptions c13_roster_hypotheses_satisfiable.
 
